@@ -110,6 +110,11 @@ def check_setkey_protocol(ctx):
 def check(ctx):
     check_lookup_namespace(ctx)
     check_setkey_protocol(ctx)
+    # shared clause: the name a field is mounted under is the key it reports (every way of naming the field starts from it)
+    from .c01 import check_key_lemma
+    sub = type(ctx)(ctx.pid, ctx.an, ctx.tier)
+    check_key_lemma(sub)
+    ctx.obligations.extend(sub.obligations)
     an, model = ctx.an, ctx.model
     # ---------------------------------------------------------------- C16.1 separators
     fns = [model.function("support", "get_all_fields"), model.method("Schema", "__getitem__"), model.method("Schema", "__setitem__"),
